@@ -307,6 +307,9 @@ def selftest_npstub(_p=None):
     return {'ok': True, 'cases': cases}
 
 
+BITS_NAMES = ['int8', 'int16', 'int32', 'int64', 'uint8', 'uint16', 'uint32', 'uint64']
+
+
 def selftest_npvalues(_p=None):
     """npvalues vs real numpy on integer index arrays: diff (same-dtype wrap), astype(int64), unique, median == 0,
     min/max, comparisons."""
@@ -341,6 +344,13 @@ def selftest_npvalues(_p=None):
                     return {'ok': False, 'detail': 'comparisons'}
             if not np.issubdtype(real.dtype, np.integer) or not npv.issubdtype(stub.dtype, npv.integer):
                 return {'ok': False, 'detail': 'issubdtype'}
+    for na in BITS_NAMES:
+        for nb in BITS_NAMES:
+            if {na, nb} & {'uint64'} and not (na.startswith('u') and nb.startswith('u')):
+                continue
+            cases += 1
+            if np.promote_types(na, nb).name != npv.promote_types(npv.IDtype(na), npv.IDtype(nb)).name:
+                return {'ok': False, 'detail': f'promote_types {na} {nb}'}
     # float64 arrays of integer-valued numbers (|v| <= 2**50) and NaN: diff, unique (one NaN, last), median, min / max,
     # comparisons, the tolerance expression - numpy's NaN semantics vs the NAN sentinel
     import math
